@@ -205,15 +205,19 @@ Definition fit_product (st : store) (ids1 ids2 : list Z) : list gfeat :=
   map (fun '(a, b) => mkG GProduct a b (f64 1 1 1) 1)
       (make_pairwise (select_ids st GProduct ids1) (select_ids st GProduct ids2)).
 
-(* gradient: 4 features per channel of every structured feature with rows, cols >= 3 *)
+(* gradient: 4 features per channel of every structured feature with rows, cols >= 3.  The k-th generated feature of a
+   source feature is (channel, type) of the loop nest `for channel .. for type < 4 ..  k++`; g_o2 packs the two mapping
+   columns written by do_fit as `column5 * modes + column6` (decoded by C08_Gradient.grad_channel / grad_mode); the
+   output dims (1, rows - 2, cols - 2), the loop bound and the column size are the translated expressions. *)
+Definition grad_block (i : Z) (f : feature) : list gfeat :=
+  flat_map (fun ch => map (fun ty => mkG GGradient i (src_grad_map_channel ch ty * src_grad_modes + src_grad_map_mode ch ty)
+                                         (f64 src_grad_out_channels (src_grad_out_rows (f_d1 f)) (src_grad_out_cols (f_d2 f)))
+                                         (src_grad_colsize (src_grad_out_rows (f_d1 f)) (src_grad_out_cols (f_d2 f))))
+                          (zseq src_grad_modes))
+           (zseq (f_d0 f)).
 Definition fit_gradient (st : store) (ids : list Z) : list gfeat :=
   flat_map (fun i => let f := ds_feature st i in
-                     if src_grad_applies (f_d1 f) (f_d2 f)
-                     then flat_map (fun ch => map (fun ty => mkG GGradient i (ch * 4 + ty) (f64 1 (f_d1 f - 2) (f_d2 f - 2))
-                                                                 ((f_d1 f - 2) * (f_d2 f - 2)))
-                                                  (zseq 4))
-                                   (zseq (f_d0 f))
-                     else [])
+                     if src_grad_applies (f_d1 f) (f_d2 f) then grad_block i f else [])
            (select_ids st GGradient ids).
 
 Definition fit (st : store) (k : gkind) (ids1 ids2 : list Z) : list gfeat :=
@@ -346,7 +350,7 @@ Definition gvalue (rd : reader) (g : gfeat) (fl : flag) (s : Z) : option (list Z
                 | Some a, Some b => Some [hd 0 a * hd 0 b]
                 | _, _ => None
                 end
-  | GGradient => match rd (g_o1 g) s' with           (* float kernel not modelled: placeholder zeros *)
+  | GGradient => match rd (g_o1 g) s' with           (* integer layer: placeholder zeros; the VALUES are C08_Gradient.grad_image *)
                  | Some _ => Some (zrepeat 0 (g_colsize g))
                  | None => None
                  end
